@@ -202,13 +202,15 @@ def _parse_raw_data(region_str):
                 continue
 
             if shape == 'composite':
-                idx = line.find('||')
+                idx = original_line.find('||')
                 if idx == -1:
                     raise ValueError('unable to parse line with composite '
                                      f'shape: "{line}"')
                 # composite metadata applies to all regions within the
-                # composite shape
-                composite_meta = _parse_metadata(line[idx + 2:].strip())
+                # composite shape; parse the original line to keep the
+                # case of the values (e.g., text and tag fields)
+                composite_meta = _parse_metadata(
+                    original_line[idx + 2:].strip())
                 # remove "composite=1" since we split the composite
                 composite_meta.pop('composite', None)
 
